@@ -485,4 +485,10 @@ theorem C17_validation_source :
       "trip.allowSameLineTransfers", "line.mode.isTransferable() ? 0 : -1"] ∧
     Gen.transferableName = "transferable" := by decide
 
+/-- how each loader stores a record with a uuid already present, as read from the source NOW: `emplace` keeps the first
+    record (`Map.emplace`: nodes, lines, paths, trips), `ts[uuid] =` keeps the last (`Map.set`: agencies, services, scenarios) -/
+theorem C17_insert_source :
+    Gen.loaderInsert = [("agencies", "assign"), ("services", "assign"), ("nodes", "emplace"), ("lines", "emplace"), ("paths", "emplace"),
+      ("scenarios", "assign"), ("trips_and_connections", "emplace")] := by decide
+
 end Tr.Load
